@@ -301,6 +301,17 @@ class Materialiser:
             return "materialise-error"
         return r["out"]
 
+    def call(self, op, inp):
+        """generic exec-stage call on the real code: returns the `out` value (pass 2)"""
+        k = "call:%s:%s" % (op, hashlib.sha1(json.dumps(inp, sort_keys=True).encode()).hexdigest())
+        if self.res is None:
+            self.req[k] = {"id": k, "op": op, "in": inp}
+            return None
+        r = self.res.get(k)
+        if r is None:
+            return {"error": "no result"}
+        return r.get("out", {"error": r.get("error")})
+
     def resolve(self, variant):
         self.res = harness_exec(variant, list(self.req.values()))
 
